@@ -173,7 +173,7 @@ LEVEL_TEXT = (
     "Exploration: the real Permeance.convert is executed for all 9 ordered unit pairs and all 27 two-leg paths on "
     "thousands of (molar mass, value) cases per run and compared with an independent factor table at 4-8 ulp; "
     "missing-component / unknown-unit calls are required to raise and a class invariant value >= 0 is armed on every "
-    "Permeance constructed; one burst of concurrent conversions from 4 threads per shard must reproduce the serial values. "
+    "Permeance constructed; two-leg paths are also made with a different component on each leg; one burst of concurrent conversions from 4 threads per shard must reproduce the serial values. "
     "Held means no oracle failed on this run's executions."
 )
 LEVEL_NOTE = "Trusted: the three unit factors stated in the property; seeded sampling reported in the evidence."
